@@ -2,8 +2,14 @@ module github.com/bufbuild/bufverif
 
 go 1.23.4
 
-require github.com/bufbuild/buf v0.0.0
+require (
+	github.com/bufbuild/buf v0.0.0
+	google.golang.org/protobuf v1.36.6
+)
 
-require github.com/klauspost/compress v1.18.0 // indirect
+require (
+	github.com/bufbuild/protoplugin v0.0.0-20250218205857-750e09ce93e1 // indirect
+	github.com/klauspost/compress v1.18.0 // indirect
+)
 
 replace github.com/bufbuild/buf => /repo
